@@ -126,9 +126,9 @@ def gen_cases(out, explore):
                           oseed=rnd.randrange(10**6)))
     # a root page with more traces than SQLite's historical bound-parameter limit (999) under the default batch size:
     # every trace has >= 2 spans, so a trace whose descendants went missing would show up as a new shape
-    for k in range(1 if quick else 4):
+    for k in range(1 if quick else 2):
         shapes = [(1, [(2, [])]), (1, [(3, [])]), (1, [(2, []), (3, [])]), (2, [(1, [(3, [])])])][:1 if k % 2 == 0 else 4]
-        ntr = rnd.choice([1003, 1100]) if k < 2 else rnd.choice([2005, 2500])
+        ntr = rnd.choice([1003, 1100])
         traces = [(j + 1, 1, shuffle_tree(rnd, rnd.choice(shapes))) for j in range(ntr)]
         cases.append(dict(traces=traces, bs=1000, order="seq", buf=0, oseed=k, large=True))
     return cases, n_exh, n_rand
@@ -306,7 +306,7 @@ def run(out: common.Outcome, explore: int = 0) -> None:
     out.coverage.update({
         "evaluations": len(cases), "distinct_nontrivial": len(keys),
         "rule": "exhaustive: ordered pairs of all ordered labelled trees with <= 3 (thorough: 4) nodes over 2 labels, under one and two "
-                "workflow names, batch sizes {1,(2),1000}; one (thorough: four) store of 1000-2500 two/three-span traces under batch size 1000; random: 2-12 traces drawn from a few base shapes with shuffled sibling "
+                "workflow names, batch sizes {1,(2),1000}; one (thorough: two) store of 1003-1100 two/three-span traces under batch size 1000; random: 2-12 traces drawn from a few base shapes with shuffled sibling "
                 "order plus unrelated trees, up to 12 spans, 1-3 names, batch sizes {1,2,3,1000}, sequential / reversed / span-level "
                 "interleaved ingestion; non-trivial = two traces of equal shape or a span with >= 2 children",
         "exhaustive_cases": n_exh, "random_cases": n_rand,
